@@ -7,6 +7,7 @@ package txnh
 
 import (
 	"context"
+	"os"
 	"errors"
 	"fmt"
 	"sort"
@@ -212,6 +213,8 @@ type seamRPC struct {
 	inner tikv.Client
 }
 
+var debugSeam = os.Getenv("VERIF_DEBUG") != ""
+
 var errInjected = errors.New("verif: injected rpc failure")
 var errClosed = errors.New("verif: execution closed")
 
@@ -253,6 +256,11 @@ func (s *seamRPC) SendRequest(ctx context.Context, addr string, req *tikvrpc.Req
 	}
 	resp, err := s.inner.SendRequest(ctx, addr, req, timeout)
 	rec.Resp, rec.Err = resp, err
+	if debugSeam && resp != nil {
+		if re, _ := resp.GetRegionError(); re != nil {
+			fmt.Fprintf(os.Stderr, "SEAM region error for c%d %s ctx=%v: %v\n", s.c.ID, label, req.Context.GetRegionEpoch(), re)
+		}
+	}
 	s.c.W.record(rec)
 	switch d.Kind {
 	case DevDropResp:
@@ -367,6 +375,9 @@ func keysOf(req *tikvrpc.Request) [][]byte {
 	}
 	return nil
 }
+
+// ReqKeys returns the keys a request touches.
+func ReqKeys(req *tikvrpc.Request) [][]byte { return keysOf(req) }
 
 // ReqStartTS extracts the transaction start ts a request belongs to (0 if none).
 func ReqStartTS(req *tikvrpc.Request) uint64 {
